@@ -4,6 +4,7 @@ CONSTANTS
  FrontEnds <- FrontEndsAll
  WtStates <- WtAll
  Exts <- ExtsAll
+ Prevs <- PrevsAll
  Emit = TRUE
 SPECIFICATION Spec
 INVARIANT NoPointerToPointer
